@@ -1,7 +1,7 @@
 (* C11 — Operations that cannot be honoured fail without side effects. Statements only. *)
 From Coq Require Import ZArith List Bool Lia.
 Import ListNotations.
-From XO Require Import Slots Strides BufOps Types Format Check LayoutProofs Update UpdateProofs.
+From XO Require Import Slots Strides BufOps Types Format Check LayoutProofs Update UpdateProofs UpdateSize.
 Open Scope Z_scope.
 
 (* the model decides which assignments can be honoured: the element must exist, the new value
@@ -18,6 +18,12 @@ Theorem C11_other_shape_refused : forall sh items sh' items', list_eqbZ sh sh' =
 Proof. intros sh items sh' items' H. cbn [retag]. rewrite H. reflexivity. Qed.
 (* in an accepted history every refused operation left the object's bytes the image of the
    unchanged value, and no operation ever changed the size *)
+(* an assignment the model honours -- any type, any depth, any value that takes over the capacities
+   fixed at creation -- leaves an object whose documented image has exactly the same length: the
+   extent reserved at creation never changes, so a fitting assignment has nowhere to write but inside it *)
+Theorem C11_extent_never_changes : forall t v p x v' img,
+  assign t v p x = Some v' -> enc t v = Some img -> exists img', enc t v' = Some img' /\ len img' = len img.
+Proof. exact assign_keeps_extent. Qed.
 Theorem C11_history_sound : forall steps t v size n, check_updates t v size n steps = None -> conforms t v size steps.
 Proof. exact check_updates_sound. Qed.
 Theorem C11_size_never_changes : forall bs sz bs' sz' x, retag (VStr bs sz) (VStr bs' sz') = Some x -> x = VStr bs' sz.
@@ -28,3 +34,4 @@ Print Assumptions C11_missing_element_refused.
 Print Assumptions C11_other_shape_refused.
 Print Assumptions C11_history_sound.
 Print Assumptions C11_size_never_changes.
+Print Assumptions C11_extent_never_changes.
